@@ -12,6 +12,7 @@ import (
 	"io"
 	"os"
 	"path/filepath"
+	"runtime"
 	"sort"
 	"strconv"
 	"strings"
@@ -31,14 +32,19 @@ var run *vlib.Run
 
 // chunkConn delivers data in the given chunk sizes (then whatever remains), collects writes.
 type chunkConn struct {
-	data []byte
-	cuts []int // absolute offsets at which a Read must stop
-	pos  int
-	fix  int // fixed chunk size (0 = use cuts)
-	out  bytes.Buffer
+	data   []byte
+	cuts   []int // absolute offsets at which a Read must stop
+	pos    int
+	fix    int // fixed chunk size (0 = use cuts)
+	out    bytes.Buffer
+	mu     sync.Mutex
+	closed bool
 }
 
 func (c *chunkConn) Read(p []byte) (int, error) {
+	if c.isClosed() {
+		return 0, io.ErrClosedPipe
+	}
 	if c.pos >= len(c.data) {
 		return 0, io.EOF
 	}
@@ -62,7 +68,17 @@ func (c *chunkConn) Read(p []byte) (int, error) {
 	return n, nil
 }
 func (c *chunkConn) Write(p []byte) (int, error) { return c.out.Write(p) }
-func (c *chunkConn) Close() error                { return nil }
+func (c *chunkConn) Close() error {
+	c.mu.Lock()
+	c.closed = true
+	c.mu.Unlock()
+	return nil
+}
+func (c *chunkConn) isClosed() bool {
+	c.mu.Lock()
+	defer c.mu.Unlock()
+	return c.closed
+}
 
 type msgSpec struct {
 	name string
@@ -173,7 +189,17 @@ func framing(seqLen int) {
 				rs := mk(c)
 				var got []string
 				for range seq {
-					m, _, err := rs.Read(ctx)
+					// every Read gets a context of its own that ends as soon as the Read has returned (a per-message
+					// deadline): that must not affect later reads
+					rctx, rcancel := context.WithCancel(ctx)
+					m, _, err := rs.Read(rctx)
+					rcancel()
+					if desc == "unchunked" {
+						// give anything that was hooked onto the ended context the chance to run
+						for i := 0; i < 200 && !c.isClosed(); i++ {
+							runtime.Gosched()
+						}
+					}
 					if err != nil {
 						run.Violation("framing-lossy", fmt.Sprintf("%s, %s: read error %v after %d of %d messages", kind, desc, err, len(got), len(seq)), map[string]any{"stream": kind, "sequence": seq, "chunking": desc})
 						return
@@ -449,6 +475,7 @@ type matchScenario struct {
 	cancel    int  // 1-based caller index whose context is cancelled by a canceller thread; 0 = none
 	peerNotes bool // the peer interleaves a notification before each response
 	dupe      bool // the peer answers the first call twice
+	peerCalls int  // the peer sends this many calls of its own at the start; the handler answers them asynchronously (as jsonrpc2.AsyncHandler does), each with the echo of its own parameters
 }
 
 type callResult struct {
@@ -469,8 +496,20 @@ func (sc matchScenario) build() (func(), func(*vsched.Exec) string, func() strin
 		handled := 0
 		conn.Go(ctx, func(ctx context.Context, reply jsonrpc2.Replier, req jsonrpc2.Request) error {
 			handled++
+			if req.Method() == "peer/call" {
+				// answered later, from another goroutine, after the read loop has moved on to the next message
+				params := append(json.RawMessage{}, req.Params()...)
+				vsched.GoNamed(fmt.Sprintf("async-reply%d", handled), func() {
+					vsched.Yield("async-reply")
+					var p map[string]any
+					json.Unmarshal(params, &p)
+					reply(ctx, map[string]any{"echo": p}, nil)
+				})
+				return nil
+			}
 			return reply(ctx, nil, nil)
 		})
+		var peerAnswers []string
 		res := make([]callResult, sc.calls)
 		cancels := make([]context.CancelFunc, sc.calls)
 		cancelled := make([]bool, sc.calls)
@@ -478,7 +517,7 @@ func (sc matchScenario) build() (func(), func(*vsched.Exec) string, func() strin
 		answered, arrived := 0, 0
 		phase := "run"
 		key = func() string {
-			k := fmt.Sprintf("%s|%q|%q|%v|w%d a%d r%d n%d h%d|", phase, p.toConn, p.fromConn, p.closed, p.writes, answered, arrived, notified, handled)
+			k := fmt.Sprintf("%s|%q|%q|%v|w%d a%d r%d n%d h%d|%v|", phase, p.toConn, p.fromConn, p.closed, p.writes, answered, arrived, notified, handled, peerAnswers)
 			for i, r := range res {
 				k += fmt.Sprintf("%d:%v:%v:%v:%v;", i, r.done, r.err, r.result, cancelled[i])
 			}
@@ -515,7 +554,9 @@ func (sc matchScenario) build() (func(), func(*vsched.Exec) string, func() strin
 			id     json.RawMessage
 			params json.RawMessage
 			method string
+			result json.RawMessage
 		}
+
 		var frameErr string
 		takeFrames := func() []inbound {
 			var out []inbound
@@ -543,13 +584,14 @@ func (sc matchScenario) build() (func(), func(*vsched.Exec) string, func() strin
 					ID     json.RawMessage `json:"id"`
 					Method string          `json:"method"`
 					Params json.RawMessage `json:"params"`
+					Result json.RawMessage `json:"result"`
 				}
 				if err := json.Unmarshal(body, &m); err != nil {
 					frameErr = fmt.Sprintf("INTERLEAVED-FRAMES body %q: %v", body, err)
 					return out
 				}
 				p.fromConn = b[i+4+n:]
-				out = append(out, inbound{m.ID, m.Params, m.Method})
+				out = append(out, inbound{m.ID, m.Params, m.Method, m.Result})
 			}
 		}
 		send := func(v any) {
@@ -558,6 +600,12 @@ func (sc matchScenario) build() (func(), func(*vsched.Exec) string, func() strin
 		}
 		var queue []inbound
 		peerDone := false
+		for k := 0; k < sc.peerCalls; k++ {
+			send(map[string]any{"jsonrpc": "2.0", "id": fmt.Sprintf("p%d", k), "method": "peer/call", "params": map[string]any{"peer": k}})
+		}
+		if sc.peerCalls > 0 && sc.peerNotes {
+			send(map[string]any{"jsonrpc": "2.0", "method": "peer/note", "params": map[string]any{"n": 0}})
+		}
 		vsched.GoNamed("peer", func() {
 			defer func() { peerDone = true }()
 			for {
@@ -581,6 +629,9 @@ func (sc matchScenario) build() (func(), func(*vsched.Exec) string, func() strin
 					if in.method == "m/call" {
 						arrived++
 						queue = append(queue, in)
+					}
+					if in.method == "" && len(in.id) > 0 {
+						peerAnswers = append(peerAnswers, string(in.id)+"="+string(in.result))
 					}
 				}
 				if frameErr != "" {
@@ -638,6 +689,17 @@ func (sc matchScenario) build() (func(), func(*vsched.Exec) string, func() strin
 			echo, _ := r.result["echo"].(map[string]any)
 			if echo == nil || echo["caller"] != float64(i) {
 				msg = fmt.Sprintf("WRONG-RESULT caller %d received %v (id %v): not the response to its own call", i, r.result, r.id)
+				return
+			}
+		}
+		if sc.peerCalls > 0 {
+			sort.Strings(peerAnswers)
+			var want []string
+			for k := 0; k < sc.peerCalls; k++ {
+				want = append(want, fmt.Sprintf("\"p%d\"={\"echo\":{\"peer\":%d}}", k, k))
+			}
+			if strings.Join(peerAnswers, " ") != strings.Join(want, " ") {
+				msg = fmt.Sprintf("WRONG-RESULT the peer's own calls were answered with %v, want %v (each id with the echo of its own parameters, once)", peerAnswers, want)
 				return
 			}
 		}
@@ -857,6 +919,7 @@ func main() {
 		{name: "2 callers, caller 1 cancelled concurrently", calls: 2, waitFor: 1, cancel: 1},
 		{name: "2 callers, peer never answers the first arrival", calls: 2, waitFor: 1, silentOn: 1},
 		{name: "2 callers, peer answers the first call twice", calls: 2, waitFor: 2, dupe: true},
+		{name: "1 caller; the peer sends 2 calls of its own and a notification, answered asynchronously by the handler", calls: 1, waitFor: 1, peerCalls: 2, peerNotes: true},
 	}
 	if run.Thorough() {
 		scenarios = append(scenarios,
